@@ -1,8 +1,91 @@
 //! Verification hook (compiled only with `--cfg quinn_rs_quinn_verif`).
+//!
+//! Component: `cid_queue` — the real [`CidQueue`] driven by peer-chosen NEW_CONNECTION_ID fields.
+//!
+//! Connection IDs and reset tokens are derived from one integer `id` (8 big-endian bytes; the
+//! token repeats them twice) and are reported back as that integer.
+//!
+//! ops (state persists over the case; the queue exists from the start with initial CID id 0):
+//!   [0, id]                 CidQueue::new(cid(id))
+//!   [1, seq, rpt, id]       insert(NewConnectionId{sequence: seq, retire_prior_to: rpt, ..})
+//!   [2]                     next()
+//!   [3, id]                 update_initial_cid(cid(id))
+//! observation of every op: [active_seq, active_id, code, ...]
+//!   insert: code 0 = Ok(None) | 1, start, end, token = Ok(Some(start..end, token))
+//!           | 2 = Err(Retired) | 3 = Err(ExceedsLimit)
+//!   next:   code 0 = None | 1, token, start, end = Some((token, start..end))
+//!   new / update_initial_cid: code 0
 #![allow(missing_docs, dead_code, unused_imports, unreachable_pub, clippy::all)]
 use super::{Ops, Outs};
+use crate::{
+    ConnectionId, RESET_TOKEN_SIZE, ResetToken,
+    cid_queue::{CidQueue, InsertError},
+    frame::NewConnectionId,
+};
+
+fn cid(id: i128) -> ConnectionId {
+    ConnectionId::new(&(id as u64).to_be_bytes())
+}
+
+fn token(id: i128) -> ResetToken {
+    let mut t = [0u8; RESET_TOKEN_SIZE];
+    let b = (id as u64).to_be_bytes();
+    for (i, x) in t.iter_mut().enumerate() {
+        *x = b[i % 8];
+    }
+    ResetToken::from(t)
+}
+
+fn id_of(b: &[u8]) -> i128 {
+    let mut x = [0u8; 8];
+    x.copy_from_slice(&b[..8]);
+    u64::from_be_bytes(x) as i128
+}
+
+fn cid_queue(ops: &Ops) -> Outs {
+    let mut q = CidQueue::new(cid(0));
+    ops.iter()
+        .map(|op| {
+            let mut tail: Vec<i128> = match op[0] {
+                0 => {
+                    q = CidQueue::new(cid(op[1]));
+                    vec![0]
+                }
+                1 => {
+                    let frame = NewConnectionId {
+                        sequence: op[1] as u64,
+                        retire_prior_to: op[2] as u64,
+                        id: cid(op[3]),
+                        reset_token: token(op[3]),
+                    };
+                    match q.insert(frame) {
+                        Ok(None) => vec![0],
+                        Ok(Some((r, t))) => vec![1, r.start as i128, r.end as i128, id_of(&t)],
+                        Err(InsertError::Retired) => vec![2],
+                        Err(InsertError::ExceedsLimit) => vec![3],
+                    }
+                }
+                2 => match q.next() {
+                    None => vec![0],
+                    Some((t, r)) => vec![1, id_of(&t), r.start as i128, r.end as i128],
+                },
+                3 => {
+                    q.update_initial_cid(cid(op[1]));
+                    vec![0]
+                }
+                _ => return vec![-1],
+            };
+            let mut o = vec![q.active_seq() as i128, id_of(&q.active())];
+            o.append(&mut tail);
+            o
+        })
+        .collect()
+}
 
 /// Interpret `ops` for component `comp`; `None` if `comp` is not served by this module.
-pub(crate) fn run(_comp: &str, _ops: &Ops) -> Option<Outs> {
-    None
+pub(crate) fn run(comp: &str, ops: &Ops) -> Option<Outs> {
+    match comp {
+        "cid_queue" => Some(cid_queue(ops)),
+        _ => None,
+    }
 }
